@@ -236,8 +236,10 @@ theorem decodeChunk_stored (H : Bytes → Bytes) (hH : ∀ x, (H x).length = 64)
   have hfin : (if hashTruncate (H c) d.checksum.length = d.checksum then some c else none) = some c := by
     rw [if_pos]
     rw [hck, hashTruncate_open _ _ (hH c) hn, hashTruncate_idem]
+  have hraw : ∀ a b, readerTakesRaw a b = decide (a = b) := by
+    intro a b; unfold readerTakesRaw; rw [if_pos (by decide)]
   unfold decodeChunk
-  simp only
+  simp only [hraw, decide_eq_true_eq]
   rcases storedBytes_cases writer (if compr.isSome then comp else id) c with h | ⟨h, hlt⟩
   · rw [h, if_pos hsz, Option.bind_some]; exact hfin
   · rw [h, if_neg (by omega)]
